@@ -876,7 +876,7 @@ impl Prop for C20 {
         "C20"
     }
     fn rule(&self) -> &'static str {
-        "(a) pools of 2-4 generated FDEs (the C06 generator: every call-frame instruction, programs that fail in the CIE's initial instructions, mid-FDE, by row-stack or rule overflow, CIEs with 0, 1 and many initial rules, extra DW_CFA_GNU_args_size) evaluated on one UnwindContext (heap storage and fixed storages 2x2, 4x4, 3x5, 193x5) along every ordered pair, every triple for pools <= 3 and four generated histories of length 3-7 whose steps consume all rows, one row or three rows: each step's rows and outcome must equal those on a fresh context; (b) one DebuggingInformationEntry buffer reused across all entries of generated units vs a fresh buffer per entry; (c) EntriesTree::root called again after 1-3 partial traversals of generated length vs a fresh tree; (d) clones of the depth-first cursor, of LineRows, of operation iterators, of the CFI entries iterator and of the unit-header iterator taken at every position (the original is advanced further before the clone moves) vs an uninterrupted iteration; (d') multi-sequence line programs (the C04 generator) run straight through vs every sequence resumed on its own through sequences()/resume_from (reverse order, twice) and vs clones taken at every row boundary; (e) Dwarf::unit for every unit with the abbreviation cache populated under Duplicates / All, in forward or reverse order and twice, incl. units sharing one abbreviation table and a unit whose abbreviation offset is invalid, vs the uncached result, and histories of 2-5 steps on one cache mixing manual `set` of a foreign table with `populate` under either strategy (documented to discard existing entries): after every populate each unit equals the uncached result. Non-trivial = a pool with both failing and succeeding FDEs, or a re-rooted tree of >= 3 entries; distinct by choice string. Later additions: clone_from into used cursors, iterators and entries; an attribute vector reused across read_abbreviation + read_attributes; address lookups on one context across FDEs covering the same address; the file entry a resumed line row names."
+        "(a) pools of 2-4 generated FDEs (the C06 generator: every call-frame instruction, programs that fail in the CIE's initial instructions, mid-FDE, by row-stack or rule overflow, CIEs with 0, 1 and many initial rules, extra DW_CFA_GNU_args_size) evaluated on one UnwindContext (heap storage and fixed storages 2x2, 4x4, 3x5, 193x5) along every ordered pair, every triple for pools <= 3 and four generated histories of length 3-7 whose steps consume all rows, one row or three rows: each step's rows and outcome must equal those on a fresh context; (b) one DebuggingInformationEntry buffer reused across all entries of generated units vs a fresh buffer per entry; (c) EntriesTree::root called again after 1-3 partial traversals of generated length vs a fresh tree; (d) clones of the depth-first cursor, of LineRows, of operation iterators, of the CFI entries iterator and of the unit-header iterator taken at every position (the original is advanced further before the clone moves) vs an uninterrupted iteration; (d') multi-sequence line programs (the C04 generator) run straight through vs every sequence resumed on its own through sequences()/resume_from (reverse order, twice) and vs clones taken at every row boundary; (e) Dwarf::unit for every unit with the abbreviation cache populated under Duplicates / All, in forward or reverse order and twice, incl. units sharing one abbreviation table and a unit whose abbreviation offset is invalid, vs the uncached result, and histories of 2-5 steps on one cache mixing manual `set` of a foreign table with `populate` under either strategy (documented to discard existing entries): after every populate each unit equals the uncached result. Non-trivial = a pool with both failing and succeeding FDEs, or a re-rooted tree of >= 3 entries; distinct by choice string. Later additions: clone_from into used cursors, iterators and entries; an attribute vector reused across read_abbreviation + read_attributes; address lookups on one context across FDEs covering the same address; the file entry a resumed line row names. Round-8 additions: a cursor whose read fails part-way through a unit has no current entry and yields nothing further."
     }
     fn assumptions(&self) -> Vec<&'static str> {
         vec!["fresh state is the oracle: the same gimli code on newly created contexts, buffers, trees, iterators and an unpopulated cache"]
